@@ -49,9 +49,9 @@ func vtxOpenSqlx(w *vtxWorld, api, ctor string) (vtxTransactor, func()) {
 		conn = NewSqlConnFromDB(db)
 		done = func() { _ = db.Close() }
 	}
-	return func(useCtx bool, body func(context.Context, vtxSession) error) error {
+	return func(ctx context.Context, useCtx bool, body func(context.Context, vtxSession) error) error {
 		if useCtx {
-			return conn.TransactCtx(context.Background(), func(ctx context.Context, s Session) error {
+			return conn.TransactCtx(ctx, func(ctx context.Context, s Session) error {
 				return body(ctx, vtxSess{s})
 			})
 		}
